@@ -143,7 +143,9 @@ func (d *tDecoder) Decode(b []byte, base unsafe.Pointer, sd *structDesc, maxdept
 	}
 	for _, fid := range sd.requiredFieldIDs {
 		if !bs.test(fid) {
-			return i, newRequiredFieldNotSetException(lookupFieldName(sd.rt, sd.GetField(fid).Offset))
+			// by name, not by offset: a zero-size field (e.g. an empty struct held by value) shares its offset
+			// with the field that follows it
+			return i, newRequiredFieldNotSetException(sd.GetField(fid).Name)
 		}
 	}
 	if ufs != nil && ufs.Size() > 0 {
